@@ -340,7 +340,9 @@ SURR_TREES = ['surr', 'surrkey', 'surropen']
 
 
 def c01(ctx):
-    files = parser_trees(ctx, STRICT_TREES) + byte_trees(ctx)
+    # the surrogate trees run under all four option records: their strict runs belong to C01 (an unpaired
+    # surrogate escape is rejected in strict mode), the harness attributes lenient runs to C12
+    files = parser_trees(ctx, STRICT_TREES + SURR_TREES) + byte_trees(ctx)
     ctx.replay(files, ['C01.'])
     parser_trace(ctx, ['C01.'])
     sweeps(ctx, ['raw_str', 'raw_key', 'esc_ascii', 'esc_u', 'esc_pair', 'esc_pair2', 'esc_hexchar'], 'C01.sweep',
@@ -348,7 +350,7 @@ def c01(ctx):
 
 
 def c02(ctx):
-    files = parser_trees(ctx, STRICT_TREES)
+    files = parser_trees(ctx, STRICT_TREES + SURR_TREES)
     ctx.replay(files, ['C02.'])
     parser_trace(ctx, ['C02.'])
     sweeps(ctx, ['raw_str', 'raw_key', 'esc_ascii', 'esc_u', 'esc_u_key', 'esc_pair', 'esc_pair2', 'combine', 'esc_hexchar'], 'C02.sweep',
@@ -484,6 +486,12 @@ def printer_model(ctx):
                   ['Dump', 'ParseOfPrint', 'OnlyWhitespaceDiffers', 'CompactMinimal', 'NoLimitSingleLine'], spec='PSpec')
 
 
+def printer_strings(ctx):
+    """every string up to 3 characters over one representative per escaping class, and padded long strings"""
+    return ctx.mc('printer_strings', 'MC_Printer', {'ValueSet': 'StringValues', 'OptionSet': 'StringOptions'}, {},
+                  ['Dump', 'ParseOfPrint', 'OnlyWhitespaceDiffers', 'CompactMinimal', 'NoLimitSingleLine'], spec='PSpec')
+
+
 def wide_families(ctx):
     sizes = '{1000, 40000}' if ctx.quick else '{1000, 40000, 300000}'
     return ctx.mc(f'wide_{ctx.tier}', 'MC_Wide', {'Sizes': sizes}, {'NMax': 6}, ['ClosedForm', 'Dump'], spec='WSpec', workers=4)
@@ -525,19 +533,19 @@ def printer_trace(ctx, aspect_layout, aspect_roundtrip):
 
 def c13(ctx):
     r = printer_model(ctx)
-    ctx.replay([r['out'], wide_families(ctx)['out']], ['C13.'])
+    ctx.replay([r['out'], printer_strings(ctx)['out'], wide_families(ctx)['out']], ['C13.'])
     printer_trace(ctx, 'C13.trace', None)
 
 
 def c04(ctx):
     r = printer_model(ctx)
-    ctx.replay([r['out'], wide_families(ctx)['out']], ['C04.'])
+    ctx.replay([r['out'], printer_strings(ctx)['out'], wide_families(ctx)['out']], ['C04.'])
     printer_trace(ctx, None, 'C04.trace')
 
 
 def c08(ctx):
     r = printer_model(ctx)
-    ctx.replay([r['out'], wide_families(ctx)['out']], ['C08.'])
+    ctx.replay([r['out'], printer_strings(ctx)['out'], wide_families(ctx)['out']], ['C08.'])
     sweeps(ctx, ['print_str', 'print_key'], 'C08.sweep',
            'compact printing of a one-character string / key differs from the RFC 8785 escaping (run-compressed exhaustive sweep)')
 
